@@ -8,8 +8,11 @@ embedding of coq/C20/Fmt.v per struct/enum, plus the environment `raw_env`.
 Fail closed: every token of every invocation must be consumed by the grammar below; any macro
 form, type, pattern, guard or expression that is not recognised is an error (returned as a list
 of strings; lib/vcheck.py reports them as a broken tie).  Also pinned, because the hand-written
-interpreters of Fmt.v follow them: the token stream of macros.rs, of `fn pool_has_utf8` and of
-`impl ClassFile { to_bytes, write, read, length }`.
+interpreters of Fmt.v follow them: the token stream of macros.rs, of `fn pool_has_utf8`, `fn pool_get`,
+`fn pool_slots` and of `impl ClassFile { to_bytes, write, read, length }`.  Every other `impl T { … }`
+block must consist of exactly one `pub fn slots(&self) -> usize { match self { T::A { .. } | … => 2, _ => 1, } }`
+(the variants listed get `v_wide = true`); the `slots {…}` vector form and `pool_slots(&this.f)` are
+accepted only for element types that have such an impl.
 
 Usage:  c20_raw_notation.py [--repo DIR] [--out FILE] [--print-pins]
         (defaults: vcheck.REPO and vcheck.COQ/C20/RawGen.v, i.e. env VERIF_REPO is honoured)
@@ -29,9 +32,11 @@ DEFAULT_OUT = os.path.join(vcheck.COQ, "C20", "RawGen.v")
 
 # sha256 of the comment-free, whitespace-normalised token streams the interpreters were written against
 PINS = {
-    "macros.rs": "ba9edea4e8d1ef3416a32f05681440ce7fa4c7cb52fc25d84a26d2ab34e8cd1d",
-    "pool_has_utf8": "bd640755a54c6a123beb6e64603f7315efbc5f8b750183e18e6660cc398f673e",
+    "macros.rs": "6896e07aba4d508253242fb3fd076c690d5356f647d9c286ddc6e87af0506fea",
+    "pool_has_utf8": "7639da7eb25949c443aa4b74d4817658d47da64ffad094573cb6077cdaa7a447",
     "impl ClassFile": "24e00894b0a7d0e010283b10428bb7b7dec0aed8501aa2c7e5c95d726cf3ad32",
+    "pool_get": "089225b6197cf50046d2d4eea20adbb8288c8d3023f5c65cae8e35221dd1d87f",
+    "pool_slots": "ff2c17649e058d0d1eb9a076b30ff9e2e4caa20e567ee087d28a97e3f7400a22",
 }
 
 
@@ -176,7 +181,7 @@ def parse_bstr(text):
     return out
 
 
-# Expressions.  AST: ("lit", n, bits|None) ("var", x) ("len", x) ("selflen",) ("add"|"sub"|"mul", a, b)
+# Expressions.  AST: ("lit", n, bits|None) ("var", x) ("len", x) ("slots", x) ("selflen",) ("add"|"sub"|"mul", a, b)
 def parse_expr(p, this):
     """sum of products over atoms; stops at the first token that cannot continue an expression"""
     def atom():
@@ -195,6 +200,14 @@ def parse_expr(p, this):
             return ("var", p.ident())
         if k == "ident":
             x = p.ident()
+            if x == "pool_slots":            # pool_slots(&this.f): sum of slots() over the vector field f
+                p.eat("("); p.eat("&")
+                if this is None or p.ident() != this:
+                    p.fail("pool_slots(…) is understood only as pool_slots(&<this>.<field>)")
+                p.eat(".")
+                m = p.ident()
+                p.eat(")")
+                return ("slots", m)
             if this is not None and x == this:
                 p.eat(".")
                 m = p.ident()
@@ -251,6 +264,9 @@ def expr_bits(e, scope, where):
         if not scope[e[1]].startswith("Vec"):
             raise TranslateError("%s: `.len()` of `%s` which is not a Vec" % (where, e[1]))
         return 64
+    if k == "slots":
+        slots_elem(e[1], scope, where)
+        return 64
     if k == "selflen":
         return 32
     a, b = expr_bits(e[1], scope, where), expr_bits(e[2], scope, where)
@@ -261,11 +277,26 @@ def expr_bits(e, scope, where):
     raise TranslateError("%s: operands of different integer types (%s and %s bits)" % (where, a, b))
 
 
+SLOTS = {}   # enum name -> names of the variants whose slots() is 2 (filled from the `impl T { fn slots }` blocks)
+
+
+def slots_elem(x, scope, where):
+    """element type of the vector field x, which must have a slots() impl"""
+    if x not in scope:
+        raise TranslateError("%s: field `%s` is not in scope" % (where, x))
+    m = re.match(r"^Vec<(\w+)>$", scope[x])
+    if not m:
+        raise TranslateError("%s: pool_slots of `%s` which is not a Vec" % (where, x))
+    if m.group(1) not in SLOTS:
+        raise TranslateError("%s: pool_slots of a Vec<%s>, but `%s` has no `fn slots` that is understood" % (where, m.group(1), m.group(1)))
+    return m.group(1)
+
+
 def coq_str(s):
     return '"%s"' % s
 
 
-def coq_expr(e):
+def coq_expr(e, scope):
     k = e[0]
     if k == "lit":
         return "(ELit %d)" % e[1]
@@ -273,13 +304,15 @@ def coq_expr(e):
         return "(EVar %s)" % coq_str(e[1])
     if k == "len":
         return "(ELen %s)" % coq_str(e[1])
+    if k == "slots":
+        return "(ESlots %s %s)" % (coq_str(e[1]), coq_str(slots_elem(e[1], scope, "expression")))
     if k == "selflen":
         return "ESelfLen"
-    return "(%s %s %s)" % ({"add": "EAdd", "sub": "ESub", "mul": "EMul"}[k], coq_expr(e[1]), coq_expr(e[2]))
+    return "(%s %s %s)" % ({"add": "EAdd", "sub": "ESub", "mul": "EMul"}[k], coq_expr(e[1], scope), coq_expr(e[2], scope))
 
 
-def coq_cexpr(e, bits):
-    return "(CE %d %s)" % (bits, coq_expr(e))
+def coq_cexpr(e, bits, scope):
+    return "(CE %d %s)" % (bits, coq_expr(e, scope))
 
 
 def coq_width(t):
@@ -299,10 +332,11 @@ def skip_attr(p):
         p.i = matching(p.t, p.i) + 1
 
 
-def parse_type(p, this):
-    """$it:ident $( <$iit:tt> $([$iat:tt])? $({$l:expr})? )?   ->  (name, elem|None, count|None, lenexpr|None)"""
+def parse_type(p, this, allow_slots):
+    """$it:ident $( <$iit:tt> $([$iat:tt])? $({$l:expr})? $(slots {$sl:expr})? )?
+       ->  (name, elem|None, count|None, lenexpr|None, slotsexpr|None); the `slots` form exists in the struct arm only"""
     it = p.ident()
-    elem = count = lexpr = None
+    elem = count = lexpr = sexpr = None
     if p.peek() == "<":
         if it != "Vec":
             p.fail("generic type `%s<…>`: only Vec is understood" % it)
@@ -322,27 +356,46 @@ def parse_type(p, this):
             if not q.done():
                 q.fail("length expression not understood")
             p.i = end + 1
+        if p.peek() == "slots":
+            if not allow_slots:
+                p.fail("the `slots {…}` vector form exists only in the struct arm of the macro")
+            p.eat("slots")
+            if p.peek() != "{":
+                p.fail("expected `{` after `slots`")
+            end = matching(p.t, p.i)
+            q = P(p.t[p.i + 1:end])
+            sexpr = parse_expr(q, this)
+            if not q.done():
+                q.fail("slots expression not understood")
+            p.i = end + 1
         if count is not None and lexpr is not None:
             p.fail("a Vec with both a count type and a length expression (the macro would bind `len` twice)")
+        if sexpr is not None and (count is not None or lexpr is not None):
+            p.fail("a `slots` Vec with a count type or a length expression as well (no read rule of the macro matches)")
     elif it == "Vec":
         p.fail("Vec without element type")
-    return it, elem, count, lexpr
+    return it, elem, count, lexpr, sexpr
 
 
 def type_name(t):
-    it, elem, count, lexpr = t
+    it, elem, count, lexpr, sexpr = t
     return "Vec<%s>" % elem if elem is not None else it
 
 
 def coq_ty(t, scope, where):
-    it, elem, count, lexpr = t
+    it, elem, count, lexpr, sexpr = t
     if elem is None:
         return "(One %s)" % coq_sty(it)
     if count is not None:
         return "(Vec %s (VCount %s))" % (coq_sty(elem), coq_width(count))
     if lexpr is not None:
         bits = expr_bits(lexpr, scope, where)
-        return "(Vec %s (VLen %s))" % (coq_sty(elem), coq_cexpr(lexpr, bits if bits is not None else 31))
+        return "(Vec %s (VLen %s))" % (coq_sty(elem), coq_cexpr(lexpr, bits if bits is not None else 31, scope))
+    if sexpr is not None:
+        if elem not in SLOTS:
+            raise TranslateError("%s: `Vec<%s> slots {…}`, but `%s` has no `fn slots` that is understood" % (where, elem, elem))
+        bits = expr_bits(sexpr, scope, where)
+        return "(Vec %s (VSlots %s))" % (coq_sty(elem), coq_cexpr(sexpr, bits if bits is not None else 31, scope))
     raise TranslateError("%s: Vec with neither count type nor length expression cannot be read back (the macro's `len` would be unbound)" % where)
 
 
@@ -375,7 +428,7 @@ def parse_struct(p):
         p.eat("mut")
         x = p.ident()
         p.eat(":")
-        t = parse_type(p, this)
+        t = parse_type(p, this, True)
         setpool = False
         if p.peek() == ";":
             p.eat(";")
@@ -493,7 +546,7 @@ def parse_enum(p):
             p.eat("mut")
             x = p.ident()
             p.eat(":")
-            t = parse_type(p, this)
+            t = parse_type(p, this, False)
             nw = None
             if p.kind() == "ident":
                 kw = p.ident()        # $nw:ident — any identifier; lib.rs writes `nowrite`
@@ -534,7 +587,7 @@ def emit_struct(d, out):
         if it[0] == "const":
             _, x, ct, e = it
             bits = expr_bits(e, wscope, "%s const %s" % (where, x))
-            fields.append("FConst %s %s %s" % (coq_str(x), coq_width(ct), coq_cexpr(e, bits if bits is not None else WIDTHS[ct])))
+            fields.append("FConst %s %s %s" % (coq_str(x), coq_width(ct), coq_cexpr(e, bits if bits is not None else WIDTHS[ct], wscope)))
             rscope[x] = ct
         else:
             _, x, t, setpool = it
@@ -567,13 +620,13 @@ def emit_enum(d, out):
             ib = expr_bits(idx, rscope, where + " guard")
             if ib != 16:
                 raise TranslateError("%s: pool index in the guard is not a u16" % where)
-            cguard = "(GPoolUtf8 %s [%s]) (* %s *)" % (coq_cexpr(idx, ib), ";".join(str(b) for b in s), text[1:])
+            cguard = "(GPoolUtf8 %s [%s]) (* %s *)" % (coq_cexpr(idx, ib, rscope), ";".join(str(b) for b in s), text[1:])
         fields = []
         for it in items:
             if it[0] == "const":
                 _, x, ct, e = it
                 bits = expr_bits(e, wscope, "%s const %s" % (where, x))
-                fields.append("FConst %s %s %s" % (coq_str(x), coq_width(ct), coq_cexpr(e, bits if bits is not None else WIDTHS[ct])))
+                fields.append("FConst %s %s %s" % (coq_str(x), coq_width(ct), coq_cexpr(e, bits if bits is not None else WIDTHS[ct], wscope)))
                 rscope[x] = ct
             else:
                 _, x, t, nw = it
@@ -581,16 +634,55 @@ def emit_enum(d, out):
                     nb = expr_bits(nw, rscope, "%s field %s nowrite" % (where, x))
                     if nb is not None and nb != WIDTHS[t[0]]:
                         raise TranslateError("%s field %s: nowrite expression of another integer type" % (where, x))
-                    cnw = "(Some %s)" % coq_cexpr(nw, WIDTHS[t[0]])
+                    cnw = "(Some %s)" % coq_cexpr(nw, WIDTHS[t[0]], rscope)
                 else:
                     cnw = "None"
                 fields.append("FMut %s %s %s false" % (coq_str(x), coq_ty(t, rscope, "%s field %s" % (where, x)), cnw))
                 rscope[x] = type_name(t)
-        vs.append("Variant %s %s %s\n      %s\n      [%s]" % (
-            coq_str(vname), coq_cexpr(tagw, tb if tb is not None else WIDTHS[tagty]), cpat, cguard,
-            ";\n       ".join(fields)))
+        vs.append("Variant %s %s %s\n      %s\n      [%s] %s" % (
+            coq_str(vname), coq_cexpr(tagw, tb if tb is not None else WIDTHS[tagty], wscope), cpat, cguard,
+            ";\n       ".join(fields), "true" if vname in SLOTS.get(name, []) else "false"))
     out.append("Definition d_%s : decl := DEnum %s %s [\n    %s\n  ] %s." % (
         name, coq_str(tagvar), coq_width(tagty), ";\n    ".join(vs), "true" if fallthrough else "false"))
+
+
+def parse_slots_impl(toks):
+    """impl T { pub fn slots(&self) -> usize { match self { T::A { .. } | T::B { .. } => 2, _ => 1, } } }
+       -> (T, [A, B]); anything else in an impl block is not understood"""
+    p = P(toks)
+    p.eat("impl")
+    name = p.ident()
+    p.eat("{")
+    p.eat("pub"); p.eat("fn")
+    if p.ident() != "slots":
+        p.fail("impl %s: only `pub fn slots(&self) -> usize` is understood in an impl block" % name)
+    p.eat("("); p.eat("&"); p.eat("self"); p.eat(")"); p.eat("->"); p.eat("usize")
+    p.eat("{"); p.eat("match"); p.eat("self"); p.eat("{")
+    wide = []
+    while True:
+        if p.ident() != name:
+            p.fail("impl %s: pattern of another type" % name)
+        p.eat("::")
+        wide.append(p.ident())
+        p.eat("{"); p.eat("."); p.eat("."); p.eat("}")
+        if p.peek() == "|":
+            p.eat("|")
+            continue
+        break
+    p.eat("=>")
+    if p.kind() != "num" or parse_int(p.peek()) != (2, None):
+        p.fail("impl %s: the listed variants must take 2 slots" % name)
+    p.i += 1
+    p.eat(","); p.eat("_"); p.eat("=>")
+    if p.kind() != "num" or parse_int(p.peek()) != (1, None):
+        p.fail("impl %s: every other variant must take 1 slot" % name)
+    p.i += 1
+    p.eat(","); p.eat("}"); p.eat("}"); p.eat("}")
+    if not p.done():
+        p.fail("impl %s: trailing tokens" % name)
+    if len(set(wide)) != len(wide):
+        p.fail("impl %s: a variant is listed twice" % name)
+    return name, wide
 
 
 def extract_fn(toks, start_pred, what):
@@ -620,6 +712,8 @@ def translate(repo=DEFAULT_REPO, out_path=DEFAULT_OUT, print_pins=False):
         pins["macros.rs"] = pin_of(mac)
         pins["pool_has_utf8"] = pin_of(extract_fn(lib, lambda i: lib[i][1] == "fn" and lib[i + 1][1] == "pool_has_utf8", "fn pool_has_utf8"))
         pins["impl ClassFile"] = pin_of(extract_fn(lib, lambda i: lib[i][1] == "impl" and lib[i + 1][1] == "ClassFile", "impl ClassFile"))
+        pins["pool_get"] = pin_of(extract_fn(lib, lambda i: lib[i][1] == "fn" and lib[i + 1][1] == "pool_get", "fn pool_get"))
+        pins["pool_slots"] = pin_of(extract_fn(lib, lambda i: lib[i][1] == "fn" and lib[i + 1][1] == "pool_slots", "fn pool_slots"))
     except TranslateError as ex:
         errors.append(str(ex))
     if print_pins:
@@ -628,6 +722,35 @@ def translate(repo=DEFAULT_REPO, out_path=DEFAULT_OUT, print_pins=False):
     for k, v in pins.items():
         if PINS[k] != v:
             errors.append("%s changed (token hash %s…, the interpreters of coq/C20/Fmt.v were written against %s…): the hand-written model of it must be re-validated" % (k, v[:12], PINS[k][:12]))
+
+    # every impl block other than `impl ClassFile`: a slots() table
+    SLOTS.clear()
+    i = 0
+    while i < len(lib):
+        if lib[i][1] == "impl" and i + 1 < len(lib) and lib[i + 1][1] == "ClassFile":
+            j = i                       # pinned as a whole above (its bodies mention `impl Trait` types)
+            while j < len(lib) and lib[j][1] != "{":
+                j += 1
+            try:
+                i = matching(lib, j) + 1
+                continue
+            except (TranslateError, IndexError) as ex:
+                errors.append("lib.rs line %d: impl ClassFile: %s" % (lib[i][2], ex))
+        elif lib[i][1] == "impl":
+            try:
+                j = i
+                while lib[j][1] != "{":
+                    j += 1
+                end = matching(lib, j)
+                name, wide = parse_slots_impl(lib[i:end + 1])
+                if name in SLOTS:
+                    raise TranslateError("lib.rs line %d: second impl block for `%s`" % (lib[i][2], name))
+                SLOTS[name] = wide
+                i = end + 1
+                continue
+            except (TranslateError, IndexError) as ex:
+                errors.append("lib.rs line %d: impl block not understood: %s" % (lib[i][2], ex))
+        i += 1
 
     # every notation!( … )
     decls = []
@@ -648,6 +771,17 @@ def translate(repo=DEFAULT_REPO, out_path=DEFAULT_OUT, print_pins=False):
             i += 1
     if not decls and not errors:
         errors.append("lib.rs: no notation!( … ) invocation found")
+
+    # a slots() table must belong to a declared enum and name its variants
+    for tn, wide in sorted(SLOTS.items()):
+        ds = [d for d in decls if d[1] == tn]
+        if not ds or ds[0][0] != "enum":
+            errors.append("impl %s { fn slots }: `%s` is not an enum declared with notation!" % (tn, tn))
+            continue
+        vnames = [v[0] for v in ds[0][5]]
+        for w in wide:
+            if w not in vnames:
+                errors.append("impl %s { fn slots }: `%s` is not a variant of `%s`" % (tn, w, tn))
 
     names = [d[1] for d in decls]
     if len(set(names)) != len(names):
